@@ -15,6 +15,7 @@ from pgv import clients, drive, gen, world
 from pgv.core import Fail
 
 ID = "C12"
+CASE_TIMEOUT_S = 20
 LEVEL = "fault_enumeration"
 RULE = ("Hypothesis draws a directory of 2-8 servable entries (files, HTML files, sub-directories; tame "
         "and hostile names), 1-2 faulty entries (kind x generated name, hence position), a directory "
@@ -62,7 +63,7 @@ def _case(draw):
         base = draw(st.sampled_from(["", "", "."])) + base + draw(st.sampled_from(
             ["", "", "", ".gophermap", ".html", ".mbox", ".pyg", ".tal", ".zip", ".gz", ".txt", ".abstract"]))
         name = _fault_name(kind, base)
-        if kind in ("dangling", "loop", "fifo", "sock", "linktofile") and draw(st.integers(0, 5)) == 0:
+        if kind in ("dangling", "loop", "fifo", "sock", "linktofile") and draw(st.integers(0, 2 if kind in ("fifo", "sock", "linktofile") else 5)) == 0:
             # the names the directory handlers look for themselves
             name = draw(st.sampled_from([".cap", ".cap", ".names", ".Links", ".abstract", "gophermap", ".cache.pygopherd.dir"]))
         if kind == "linktofile" and name != ".cap":
